@@ -82,5 +82,14 @@ func runC01(r *Run) {
 	// magnitudes: 70 000 elements (counts beyond 65 535), four-level trees, collapse back to a lone root
 	r.RunTaskGroup("arrays of 70 000 tiny / 4 000 limit-sized elements: build, probe, reopen, drain to empty", "bigtree", bigTreeArgs("arr-tiny", "arr-lim"))
 	// many inlined children in one slab (possible at the larger legal slab sizes only): build, commit, reopen
+	// a copy is a container of its own: after a copy, every operation on either side leaves the other side a correct
+	// sequence (copies must not share any mutable storage with their source)
+	{
+		var cargs []any
+		for sh := 0; sh < 16; sh++ {
+			cargs = append(cargs, c17Arg{T: 256, Mode: "copy", Shard: sh, Shards: 16})
+		}
+		r.RunTaskGroup("copied single-slab containers: either side mutated, the other side judged", "c17", cargs)
+	}
 	r.RunTaskGroup("containers with 200-300 inlined children in one slab (slab sizes 8192, 32768)", "manykids", manyKidsArgs("C01"))
 }
